@@ -387,6 +387,14 @@ func (g *Gen) Object(depth int) *Schema {
 		if p.Required {
 			g.hit("required")
 		}
+		if k := p.Schema.Kind; (k == KString || k == KInteger || k == KNumber || k == KBoolean) && g.R.Chance(1, 8) {
+			// readOnly says who writes the property, not whether a document must carry it
+			p.Schema.ReadOnly = true
+			g.hit("readOnly")
+			if p.Required {
+				g.hit("required+readOnly")
+			}
+		}
 		s.Props = append(s.Props, p)
 	}
 	if g.R.Chance(1, 8) {
@@ -497,6 +505,31 @@ func (g *Gen) Valid(s *Schema, defs map[string]*Schema, depth int) interface{} {
 		for _, p := range s.Props {
 			if p.Required || g.R.Chance(2, 3) {
 				m[p.Name] = g.Valid(p.Schema, defs, depth+1)
+			}
+		}
+		if s.Addl != nil {
+			// additionalProperties next to declared properties: undeclared keys carrying values of that schema
+			// (container values differ in their keys / lengths from one undeclared key to the next)
+			for i, k := range []string{"extra-one", "extra-two", "zz_extra_three"} {
+				v := g.Valid(s.Addl, defs, depth+1)
+				switch x := v.(type) {
+				case map[string]interface{}:
+					if rs := g.resolve(s.Addl, defs); rs != nil && rs.Kind == KMap {
+						y := map[string]interface{}{}
+						for kk, e := range x {
+							y[fmt.Sprintf("%s-%d", kk, i)] = e
+						}
+						v = y
+					}
+				case []interface{}:
+					if rs := g.resolve(s.Addl, defs); rs != nil && rs.Kind == KArray && rs.MaxItems == nil && !rs.Unique && len(x) > 0 {
+						for j := 0; j < i; j++ {
+							x = append(x, clone(x[0]))
+						}
+						v = x
+					}
+				}
+				m[k] = v
 			}
 		}
 		if s.MinProps != nil {
@@ -676,4 +709,12 @@ func repeat(v interface{}, n int) []interface{} {
 		out[i] = clone(v)
 	}
 	return out
+}
+
+// resolve: the schema behind a chain of references
+func (g *Gen) resolve(s *Schema, defs map[string]*Schema) *Schema {
+	for i := 0; s != nil && s.Kind == KRef && i < 10; i++ {
+		s = defs[s.Ref]
+	}
+	return s
 }
